@@ -337,14 +337,21 @@ pub struct PpCase {
 }
 
 fn pp_case(t: Tier) -> BoxedStrategy<PpCase> {
-    (1u16..=t.pick(120u16, 300u16), any::<u64>()).prop_map(|(degree, seed)| PpCase { degree, seed }).boxed()
+    // mostly small degrees; one case in ten has 1024+ / 2048+ (4096+ in
+    // thorough) points, where size-gated (parallel) code paths would start
+    let big = if t == Tier::Thorough {
+        prop_oneof![Just(1010u16), Just(1016u16), Just(1017u16), Just(1018u16), Just(1024u16), Just(2041u16), Just(2048u16), Just(4089u16), Just(4096u16)].boxed()
+    } else {
+        prop_oneof![Just(1016u16), Just(1017u16), Just(1018u16), Just(1024u16), Just(2041u16)].boxed()
+    };
+    (prop_oneof![9 => (1u16..=t.pick(120u16, 300u16)).boxed(), 1 => big], any::<u64>()).prop_map(|(degree, seed)| PpCase { degree, seed }).boxed()
 }
 
 fn check_pp(ctx: &Ctx, c: &PpCase) -> PResult {
     let n = c.degree as usize;
     let mut rng = ChaCha20Rng::seed_from_u64(c.seed);
     let pp = PublicParameters::setup(n, &mut rng).map_err(|e| Fail::new("setup-error", format!("{e:?}")))?;
-    ctx.eval("public parameters");
+    ctx.eval(if n + 7 >= 1024 { "public parameters (1024+ points)" } else { "public parameters" });
     let b = pp.to_var_bytes();
     let d = no_panic("pp-decode-panic", || PublicParameters::from_slice(&b))?.map_err(|e| Fail::new("pp-bytes-not-decodable", format!("{e:?}")))?;
     ensure!(d.to_var_bytes() == b, "pp-reencode-differs", "checked encoding does not round trip");
@@ -383,5 +390,5 @@ pub fn props() -> Vec<(Box<dyn PropDyn>, u32, u32)> {
 }
 
 pub fn describe(ctx: &Ctx) {
-    ctx.rule("keys: generated programs (all components, sizes 2^k+-8 up to 2^8 quick / 2^11 thorough, three compile routes) AND full-domain circuits whose selector columns are evaluations of low-degree polynomials through the fixed rows (so individual selector polynomials are shorter than others or zero) -> Prover/Verifier encode, decode, re-encode identical, serialized_size = length, decoded prover + same randomness = identical proof, decoded verifier = same verdict on the honest and 11 mutated triples. proofs: 1008-byte strings from valid proofs with 1..3 structure-aware edits (compression/infinity/sort flags, x+p, infinity with junk, scalar+r, scalar=r, 2^256-1, bit flips): every accepted string re-encodes to itself. parameters: setup(1..120/300) checked and raw round trips, same compiled keys. non-trivial: distinct artefact bytes; a rejected string counts only when it carries a single edit");
+    ctx.rule("keys: generated programs (all components, sizes 2^k+-8 up to 2^8 quick / 2^11 thorough, three compile routes) AND full-domain circuits whose selector columns are evaluations of low-degree polynomials through the fixed rows (so individual selector polynomials are shorter than others or zero) -> Prover/Verifier encode, decode, re-encode identical, serialized_size = length, decoded prover + same randomness = identical proof, decoded verifier = same verdict on the honest and 11 mutated triples. proofs: 1008-byte strings from valid proofs with 1..3 structure-aware edits (compression/infinity/sort flags, x+p, infinity with junk, scalar+r, scalar=r, 2^256-1, bit flips): every accepted string re-encodes to itself. parameters: setup(1..120/300, and one case in ten with 1023..4103 points) checked and raw round trips, same compiled keys. non-trivial: distinct artefact bytes; a rejected string counts only when it carries a single edit");
 }
